@@ -8,6 +8,7 @@ package core
 import (
 	"path"
 	"strconv"
+	"time"
 
 	"github.com/martian-lang/martian/martian/syntax"
 	"github.com/martian-lang/martian/martian/util"
@@ -285,4 +286,22 @@ func (self *Pipestance) VerifForks() []VerifForkInfo {
 		}
 	}
 	return r
+}
+
+// VerifAgeHeartbeats lets time pass for the heartbeat bookkeeping: every
+// job's last seen heartbeat becomes d older.
+func (self *Pipestance) VerifAgeHeartbeats(d time.Duration) {
+	for _, node := range self.allNodes() {
+		for _, fork := range node.forks {
+			mds := []*Metadata{fork.metadata, fork.split_metadata, fork.join_metadata}
+			for _, chunk := range fork.chunks {
+				mds = append(mds, chunk.metadata)
+			}
+			for _, md := range mds {
+				if md != nil && !md.lastHeartbeat.IsZero() {
+					md.lastHeartbeat = md.lastHeartbeat.Add(-d)
+				}
+			}
+		}
+	}
 }
